@@ -455,6 +455,71 @@ def ground_apps(terms, prefix):
     return out
 
 
+_ext_cache = {}
+
+
+def sum_extensionality(hyps, a, b):
+    """extensionality of Sum (provable by induction on the range): if the two sums have the same bounds and the summands agree
+    pointwise on the range - established here by a *side proof* at a fresh index - then the sums are equal.
+    Returns the equality (to be used as a lemma instance) or None."""
+    key = (a.get_id(), b.get_id(), hash(tuple(sorted(h.get_id() for h in hyps))))
+    if key in _ext_cache:
+        return _ext_cache[key]
+    res = None
+    try:
+        k = z3.Int(fresh_name("xk"))
+        rng = [k >= a.arg(1), k < a.arg(2)]
+        goal = z3.And(a.arg(1) == b.arg(1), a.arg(2) == b.arg(2), z3.Select(a.arg(0), k) == z3.Select(b.arg(0), k))
+        qf = [h for h in hyps if not has_quantifier(h)]
+        defs = relevant_defs(qf + rng + [goal])
+        gi = ground_def_instances(qf + rng + [goal], defs) if defs else []
+        s = z3.Solver()
+        s.set("timeout", 700)
+        s.add(*qf)
+        s.add(*rng)
+        s.add(*gi)
+        s.add(z3.Not(goal))
+        r = s.check()
+        if r == z3.unsat:
+            res = (a == b)
+        else:
+            # second stage: quantified hypotheses that talk about one of the two arrays (e.g. a callee's postcondition)
+            def syms(t):
+                out = set()
+                stack = [t]
+                seen = set()
+                while stack:
+                    u = stack.pop()
+                    if u.get_id() in seen:
+                        continue
+                    seen.add(u.get_id())
+                    if z3.is_app(u):
+                        if u.num_args() == 0 and u.decl().kind() == z3.Z3_OP_UNINTERPRETED and z3.is_array(u):
+                            out.add(u.decl().name())
+                        stack.extend(u.children())
+                    elif z3.is_quantifier(u):
+                        stack.append(u.body())
+                return out
+            want = syms(z3.And(*gi)) | syms(goal) if gi else syms(goal)
+            qh = [h for h in hyps if has_quantifier(h) and (syms(h) & want)]
+            if qh:
+                s = z3.Solver()
+                s.set("timeout", 1500)
+                s.set("smt.mbqi", False)
+                s.add(*qf)
+                s.add(*rng)
+                s.add(*qh)
+                s.add(*gi)
+                s.add(*defs)
+                s.add(z3.Not(goal))
+                if s.check() == z3.unsat:
+                    res = (a == b)
+    except z3.Z3Exception:
+        res = None
+    _ext_cache[key] = res
+    return res
+
+
 def spec_function_lemmas(hyps, goal, nonlinear=True):
     """instances of the defining axioms of recursive spec functions (Sum) at the terms that occur
     in the VC: unfolding at both ends, empty range, and extensionality between pairs of sums."""
@@ -474,16 +539,24 @@ def spec_function_lemmas(hyps, goal, nonlinear=True):
             extra.extend(fs)
             new.extend(fs)
         frontier = [t for t in ground_apps(new, "Sum_") if t.get_id() not in done]
+    # extensionality: only between a sum that occurs in the goal and another sum with syntactically equal bounds
+    goal_sums = {t.get_id() for t in ground_apps([goal], "Sum_")}
+    tried = 0
     for i in range(len(sums)):
         for j in range(i + 1, len(sums)):
             a, b = sums[i], sums[j]
             if a.sort() != b.sort() or a.arg(0).eq(b.arg(0)):
                 continue
-            k = z3.Int(fresh_name("x"))
-            extra.append(z3.Implies(z3.And(a.arg(1) == b.arg(1), a.arg(2) == b.arg(2),
-                                           z3.ForAll([k], z3.Implies(z3.And(k >= a.arg(1), k < a.arg(2)),
-                                                                     z3.Select(a.arg(0), k) == z3.Select(b.arg(0), k)))),
-                                    a == b))
+            if a.get_id() not in goal_sums and b.get_id() not in goal_sums:
+                continue
+            if not (z3.simplify(a.arg(1) - b.arg(1)).eq(z3.IntVal(0)) and z3.simplify(a.arg(2) - b.arg(2)).eq(z3.IntVal(0))):
+                continue
+            if tried >= 8:
+                break
+            tried += 1
+            eq = sum_extensionality(hyps, a, b)
+            if eq is not None:
+                extra.append(eq)
     # |x| written as ite(x >= 0, x, -x): the square of it is the square of x (saves the solver a case split under a product)
     if nonlinear:
         seen = set()
@@ -741,7 +814,7 @@ def nlsat_refutes(hyps, goal, ms):
     except z3.Z3Exception:
         return False
     try:
-        s = z3.Tactic("qfnra-nlsat").solver() if not has_int else z3.Solver()
+        s = z3.TryFor(z3.Tactic("qfnra-nlsat"), int(ms)).solver() if not has_int else z3.Solver()
         s.set("timeout", int(ms))
         s.add(*ab[:-1])
         s.add(z3.Not(ab[-1]))
@@ -831,9 +904,14 @@ def prove1(hyps2, goal2, budget):
     if qf_goal:
         qf = [h for h in hyps2 if not has_quantifier(h)]
         lemq = [l for l in (lem if goal_is_nonlinear(goal2) else lem0) if not has_quantifier(l)]
-        r, s = _check(qf, goal2, lemq, 1500, mbqi=False, rlimit=RL)
+        lemq0 = [l for l in lem0 if not has_quantifier(l)]
+        r, s = _check(qf, goal2, lemq0, 1500, mbqi=False, rlimit=RL)       # linear lemma instances only: congruence + LRA
         if r == z3.unsat:
             return "discharged", time.time() - t0, None, "z3 (quantifier-free hypotheses)"
+        if len(lemq) != len(lemq0):
+            r, s = _check(qf, goal2, lemq, 1500, mbqi=False, rlimit=RL)
+            if r == z3.unsat:
+                return "discharged", time.time() - t0, None, "z3 (quantifier-free hypotheses)"
     if qf_goal and goal_is_nonlinear(goal2):
         # phase N: pure polynomial abstraction decided by nlsat
         if nlsat_refutes(qf + lemq, goal2, max(5000, budget * 500)):
